@@ -95,8 +95,9 @@ Ranges(c, s) ==
 Delivered(c) == Ranges(c, c.start)
 
 Covers(b, i) == b.s <= i /\ i < b.s + b.n
-Times(c, i) == Cardinality({j \in 1..Len(Delivered(c)) : Covers(Delivered(c)[j], i)})
-Fanned(c) == {i \in Indices : Times(c, i) > 0}
+\* how many of the batches d contain index i; the indices that reach the fan-out
+TimesIn(d, i) == Cardinality({j \in 1..Len(d) : Covers(d[j], i)})
+FannedIn(d) == {i \in Indices : TimesIn(d, i) > 0}
 
 (* ------------------------------------------------------- the callbacks *)
 Wants(c, i) ==
@@ -116,7 +117,7 @@ Sel(c, i) == Selected(Wants(c, i), Class(i), MType(c))
 Calls(c) == {[i |-> i, kind |-> Kind(i)] : i \in {j \in Indices : InRange(c, j) /\ Sel(c, j)}}
 
 \* the classes of fan-out the case exercises
-FanClasses(c) == {FanClass(Delivered(c)[j].n, c.nm, c.buf) : j \in 1..Len(Delivered(c))}
+FanClasses(c) == LET d == Delivered(c) IN {FanClass(d[j].n, c.nm, c.buf) : j \in 1..Len(d)}
 
 (* ------------------------------------------------------------------ laws *)
 CaseOK(c) ==
@@ -131,14 +132,17 @@ ReplyLaw(c) == \A s \in Indices : \A asked \in 1..c.batch : Reply(c, s, asked) \
 \* every index of the range is in exactly one delivered batch, nothing else is in any (Fetcher.tla: Complete);
 \* no batch is empty or longer than BatchSize
 PartitionLaw(c) ==
-  /\ \A i \in Indices : Times(c, i) = IF InRange(c, i) THEN 1 ELSE 0
-  /\ \A j \in 1..Len(Delivered(c)) : Delivered(c)[j].n \in 1..c.batch
+  LET d == Delivered(c) IN
+  /\ \A i \in Indices : TimesIn(d, i) = IF InRange(c, i) THEN 1 ELSE 0
+  /\ \A j \in 1..Len(d) : d[j].n \in 1..c.batch
 
 \* fan-out: the owed callbacks are exactly the selected entries among those the fetch callback received, each of
-\* them received once (Scanner.tla: CallbackComplete / ScanComplete with cnt = Times)
+\* them received once (Scanner.tla: CallbackComplete / ScanComplete with cnt = TimesIn)
 FanoutLaw(c) ==
-  /\ {x.i : x \in Calls(c)} = {i \in Fanned(c) : Sel(c, i)}
-  /\ \A x \in Calls(c) : Times(c, x.i) = 1 /\ x.kind = Kind(x.i)
+  LET d == Delivered(c)
+      calls == Calls(c) IN
+  /\ {x.i : x \in calls} = {i \in FannedIn(d) : Sel(c, i)}
+  /\ \A x \in calls : TimesIn(d, x.i) = 1 /\ x.kind = Kind(x.i)
 
 \* the five split classes and three buffer classes are a partition of (n, m, b)
 ClassLaw == \A n \in 1..(2 * WorldSize) : \A m \in 1..8 :
